@@ -61,6 +61,12 @@ def gen_doc(draw):
         i = draw(st.integers(2, 3)); text = head + draw(st.sampled_from(SBODIES)) % ('xmlns="urn:t" ' + XSI + ' xsi:schemaLocation="urn:t xsd%d.xsd"' % i)
     else:
         text = head + draw(st.sampled_from(BODIES + ['<p:r xmlns:p="urn:p"><p:a p:k="1"/><a xmlns="urn:q"/></p:r>', '<r><![CDATA[x]]><!--c--><?pi d?></r>', '<r>&#0;</r>', '']))
+    # prolog / epilog white space, comments and PIs: what a DOM parser keeps under the Document node depends on parser-level (not scanner-level) state
+    if text and draw(st.integers(0, 2)) == 0:
+        misc = draw(st.sampled_from(['\n', ' \n<!--pc-->\n', '\n<?pp d?>\n ', '<!--pc-->']))
+        i = text.find('<!DOCTYPE') if '<!DOCTYPE' in text else (text.find('?>') + 2 if text.startswith('<?xml') else 0)
+        if text.startswith('<?xml') and i < text.find('?>') + 2: i = text.find('?>') + 2
+        text = text[:i] + misc + text[i:] + draw(st.sampled_from(['', '\n', '\n<!--ec-->\n']))
     return text.encode(enc)
 
 FEATS = ['ns=1;val=0;scanner=IG', 'ns=1;val=1;scanner=IG', 'ns=1;val=2;schema=1;scanner=IG', 'ns=1;val=1;schema=1;fullcheck=1;scanner=IG', 'ns=0;val=1;scanner=DG', 'ns=1;val=0;scanner=DG',
